@@ -147,8 +147,10 @@ def decode_suites(ctx):
         k = rnd.random()
         if k < 0.08:
             line = "B" + line[1:]
+        elif k < 0.12:
+            line = " ".join(line.split(" ")[:3]) + rnd.choice(["", " "])      # no data part: empty payload
         elif k < 0.16:
-            line = " ".join(line.split(" ")[:rnd.randrange(1, 4)])
+            line = " ".join(line.split(" ")[:rnd.randrange(1, 3)])
         elif k < 0.22:
             line = line[:-1]          # odd number of hex digits
         elif k < 0.28:
